@@ -29,6 +29,8 @@ STORAGE_CLASS = {
 
 def add_menu(level, targets):
     """(ftype, attrs, initial) entries for AddField."""
+    if level == 'tiny':
+        return [('Char', {'max_length': 20, 'null': True}, None)]
     menu = [
         ('Char', {'max_length': 20}, "it's"),
         ('Int', {'null': True}, None),
@@ -120,22 +122,23 @@ def enabled(project, level='full', kinds=None, fresh_names=FRESH_FIELD_NAMES,
             have = set(f['name'] for f in m['fields'])
             if want('AddField'):
                 targets = [t for t in all_models]
-                if level == 'lite':
+                if level in ('lite', 'tiny'):
                     targets = []
                 else:
                     targets = targets[:2]
-                for name in list(fresh_names) + [n for n in reuse_names
-                                                 if n not in fresh_names]:
-                    if name in have:
-                        continue
+                # one re-used name (freed earlier on the path by a
+                # DeleteField or RenameField) and one fresh name at a time
+                cands = []
+                for pool in ([n for n in reuse_names
+                              if n not in fresh_names], list(fresh_names)):
+                    for name in pool:
+                        if name not in have:
+                            cands.append(name)
+                            break
+                for name in cands:
                     for ftype, attrs, initial in add_menu(level, targets):
                         out.append((label, ['AddField', mname, name, ftype,
                                             dict(attrs), initial]))
-                    break  # one fresh name at a time (the next becomes
-                           # available once this one is taken)
-                for name in reuse_names:
-                    if name in have or name in fresh_names:
-                        continue
             for f in m['fields']:
                 fname = f['name']
                 if f['attrs'].get('primary_key'):
@@ -150,14 +153,14 @@ def enabled(project, level='full', kinds=None, fresh_names=FRESH_FIELD_NAMES,
                         if f['type'] == 'M2M':
                             out.append((label, ['RenameField', mname, fname,
                                                 new, {}]))
-                            if level != 'lite':
+                            if level == 'full':
                                 out.append((label, [
                                     'RenameField', mname, fname, new,
                                     {'db_table': S.m2m_table(label, m, f)}]))
                         else:
                             out.append((label, ['RenameField', mname, fname,
                                                 new, {}]))
-                            if level != 'lite':
+                            if level == 'full':
                                 out.append((label, [
                                     'RenameField', mname, fname, new,
                                     {'db_column': S.column_name(f)}]))
@@ -172,7 +175,7 @@ def enabled(project, level='full', kinds=None, fresh_names=FRESH_FIELD_NAMES,
                     if S.get_model(project, label, new) is None:
                         out.append((label, ['RenameModel', mname, new,
                                             S.default_table(label, new)]))
-                        if level != 'lite':
+                        if level == 'full':
                             out.append((label, ['RenameModel', mname, new,
                                                 S.table_name(label, m)]))
                             out.append((label, ['RenameModel', mname, new,
@@ -215,6 +218,14 @@ def change_menu(mname, f, level):
     def cf(attrs, initial=None, ftype=None):
         out.append(['ChangeField', mname, name, attrs, initial, ftype])
     rel = t in ('FK', 'O2O')
+    if level == 'tiny':
+        if a.get('null'):
+            cf({'null': False}, INITIALS[t][0] if t in INITIALS else 1)
+        else:
+            cf({'null': True})
+        if t == 'Char':
+            cf({'max_length': 30 if a.get('max_length') != 30 else 20})
+        return out
     # null
     if a.get('null'):
         if rel:
